@@ -74,6 +74,16 @@ def main(argv=None):
     findings = load_findings()
     open_f = tuple(f['id'] for f in findings if f.get('status') == 'open')
     t0 = time.time()
+    if not a.no_proof and tids:
+        # guard of the verifier itself (DESIGN.md 4): the executor is cross-checked against CPython on a fixed set of snippets before any VC is believed
+        import io, contextlib, importlib.util
+        spec = importlib.util.spec_from_file_location('selftest_se', os.path.join(os.path.dirname(os.path.dirname(os.path.abspath(__file__))), 'tools', 'selftest_se.py'))
+        mod = importlib.util.module_from_spec(spec); spec.loader.exec_module(mod)
+        buf = io.StringIO()
+        with contextlib.redirect_stdout(buf): rc = mod.main()
+        if rc != 0:
+            print(buf.getvalue()); print('CHECKER-FAULT: the symbolic executor disagrees with CPython on its self-test: no obligation of this run is believed')
+            return 3
     results = [] if a.no_proof else run_targets(tids, tier, seed, open_f)
     bounded = []
     if not a.no_bounded:
